@@ -54,3 +54,9 @@ Theorem c06_visitor_stop_is_source :
     forall answer : bool, gtrue (upd env0 "visitor(nItem,depth)" (b2z answer)) c = Some (negb answer).
 Proof. exact Decisions.visitor_stop_decision. Qed.
 Print Assumptions c06_visitor_stop_is_source.
+
+Theorem c06_visit_item_reads_are_source :
+  filter (fun c => String.eqb (fst c) "nItemLoc.read") (calls_a 400 (body "Store.visitNodes")) =
+  [("nItemLoc.read", [GVar "t"; GVar "false"]); ("nItemLoc.read", [GVar "t"; GVar "withValue"])].
+Proof. exact Decisions.visit_item_reads. Qed.
+Print Assumptions c06_visit_item_reads_are_source.
